@@ -721,6 +721,11 @@ theorem applyAct_P_core (s : State) (fh fw : List Nat) (a : Act) (ha : a.respect
     split
     · exact P_congr rfl ((PLe.incStrong s _).P hP)
     · exact hP
+  | downgradeField k =>
+    simp only [applyAct]
+    split
+    · exact P_congr rfl ((PLe.incWeak s _).P hP)
+    · exact hP
 
 /-- **contract-respecting operations keep the contract** (core form) -/
 theorem applyOp_P_core (s : State) (op : Op) (hop : op.respects) (herr : s.err = none)
@@ -1334,6 +1339,11 @@ theorem applyAct_scriptsC (s : State) (fh fw : List Nat) (a : Act) (h : s.Script
     simp only [applyAct]
     split
     · exact ((SLe.incStrong s _).scriptsC h).congr rfl rfl rfl
+    · exact h
+  | downgradeField k =>
+    simp only [applyAct]
+    split
+    · exact ((SLe.incWeak s _).scriptsC h).congr rfl rfl rfl
     · exact h
 
 /-- contract-respecting operations keep `ScriptsC` -/
